@@ -63,7 +63,9 @@ func checkEncode(r *ev.Run, c *ev.Case, k *keyid.KeyID) {
 	}
 	r.Nontrivial("enc:" + text)
 	kc := *k // the encoder gives the same text for the same value whenever asked, also from several goroutines at once
-	kc.Principals = append([]string(nil), k.Principals...)
+	if k.Principals != nil {
+		kc.Principals = append(make([]string, 0, len(k.Principals)), k.Principals...) // nil stays nil, empty stays empty
+	}
 	encRing.Add(r, c, func() string { return ev.Digest(func() string { t, e := kc.Marshal(); return fmt.Sprint(t, e != nil) }) }, fmt.Sprint(text, false), given)
 	var back *keyid.KeyID
 	var derr error
